@@ -185,6 +185,10 @@ func c20Addrs() []c20Addr {
 		mk("/ip6/2604:1380:1000::1/tcp/4001", true, false, true),
 		mk("/ip6/fd00::1/udp/4001/quic-v1", false, true, true),
 		mk("/ip6/2604:1380:1000::1/udp/4001/quic-v1", true, true, true),
+		// neither public nor in a private-network range (benchmarking network 198.18.0.0/15, IPv6 documentation prefix):
+		// not public, so the counters do not apply to them either
+		mk("/ip4/198.18.0.1/udp/4001/quic-v1", false, true, false),
+		mk("/ip6/2001:db8::1/udp/4001/quic-v1", false, true, true),
 	}
 }
 
@@ -215,7 +219,7 @@ func c20Detector(t *testing.T) {
 		cfgs = append(cfgs, cfg{3, 2, 3, 1}, cfg{1, 1, 2, 2}, cfg{3, 3, 2, 0})
 	}
 	r := vrep.New("C20", "detector")
-	r.Bounds["subsets"] = "all 256 subsets of 8 labelled addresses (private/public x tcp/udp x ip4/ip6)"
+	r.Bounds["subsets"] = "all 256 subsets of 8 labelled addresses (private/public x tcp/udp x ip4/ip6) + 48 sets: two udp addresses that are neither public nor in a private range, in every non-empty combination with every subset of the four public addresses"
 	r.Bounds["depth"] = "closure (finite state space)"
 	for _, c := range cfgs {
 		for _, ro := range []bool{false, true} {
@@ -242,14 +246,22 @@ func c20Detector(t *testing.T) {
 						ops = append(ops, c20DetOp{addr: -1, success: true}, c20DetOp{addr: -1, success: false},
 							c20DetOp{addr: -2, success: true}, c20DetOp{addr: -2, success: false})
 					}
+					// every subset of the eight private/public addresses; the two "neither" addresses (bits 8, 9) in every
+					// non-empty combination with every subset of the four public addresses (bits 1, 3, 5, 7)
 					for s := 0; s < 256; s++ {
 						ops = append(ops, c20DetOp{filter: true, subset: s})
+					}
+					for pub := 0; pub < 16; pub++ {
+						base := (pub&1)<<1 | (pub&2)<<2 | (pub&4)<<3 | (pub&8)<<4
+						for nb := 1; nb < 4; nb++ {
+							ops = append(ops, c20DetOp{filter: true, subset: base | nb<<8})
+						}
 					}
 					return ops
 				},
 				Show: func(o c20DetOp) string {
 					if o.filter {
-						return fmt.Sprintf("FilterAddrs(subset=%08b)", o.subset)
+						return fmt.Sprintf("FilterAddrs(subset=%010b)", o.subset)
 					}
 					switch o.addr {
 					case -1:
